@@ -59,6 +59,19 @@ def case(task):
                         gc.err(val, ref[k], sc))
                     res['scale'][k] = sc
                     res['refmax'][k] = rmax
+            # algebraic symmetries of the returned Riemann tensor on
+            # non-uniform data (they hold up to the discretisation error)
+            R = fwd['st_Riemann_down4']
+            for nm, T in (('sym:ab', R + np.einsum('abcd...->bacd...', R)),
+                          ('sym:cd', R + np.einsum('abcd...->abdc...', R)),
+                          ('sym:pair', R - np.einsum('abcd...->cdab...', R)),
+                          ('sym:cyclic',
+                           R + np.einsum('abcd...->acdb...', R)
+                           + np.einsum('abcd...->adbc...', R))):
+                res['err'].setdefault(nm, []).append(
+                    gc.err(T, np.zeros_like(T), max(s_curv, 1e-12)))
+                res['scale'][nm] = s_curv
+                res['refmax'][nm] = s_curv
             if N == Ns[0]:
                 res['order'] = gc.order_dependence(
                     desc, seed, p, N, KEYS, fwd, with_T=with_T,
